@@ -384,8 +384,10 @@ func sampleOf(c *Case) any {
 		ex = append(ex, fmt.Sprintf("%s roots=%v stall=%d repeat=%d decisions=%d", e.Label, e.Ex.Roots, e.Sched.Stall, e.Repeat, len(e.Tape)))
 	}
 	first := ""
-	if len(c.World.Pkgs) > 0 && len(c.World.Pkgs[len(c.World.Pkgs)-1].Files) > 1 {
-		first = c.World.Pkgs[len(c.World.Pkgs)-1].Files[1].Src
+	for _, f := range c.World.Pkgs[len(c.World.Pkgs)-1].Files {
+		if f.Name == "use.go" {
+			first = clip(f.Src, 1800)
+		}
 	}
 	return map[string]any{"config": c.World.Cfg, "packages": pk, "executions": ex, "one_source_file": first}
 }
